@@ -573,12 +573,13 @@ func runChaos(r *monitor.Run, p Params) {
 		cl.Close()
 	}
 	// Stop waits for every connection: nothing of a connection's tear-down happens after OnStop has run
-	// (will publications are not looked at: a delayed will may fire later by design of the test's will delays)
+	// (session terminations and will publications are not looked at: API callers keep calling TerminateSession
+	// and a delayed will may fire later; OnClosed and the close.* sites belong to a connection's own goroutine)
 	stopAt := -1
 	for i, e := range b.Log.Events() {
 		if e.Kind == "OnStop" && stopAt < 0 {
 			stopAt = i
-		} else if stopAt >= 0 && (e.Kind == "OnClosed" || e.Kind == "OnSessionTerminated" || strings.HasPrefix(e.Kind, "site:close.")) {
+		} else if stopAt >= 0 && (e.Kind == "OnClosed" || strings.HasPrefix(e.Kind, "site:close.")) {
 			c.add("stop.teardown_after_onstop:"+e.Kind, fmt.Sprintf("%s of %q was reported after OnStop had run: Stop did not wait for that connection", e.Kind, e.Client), nil)
 			break
 		}
